@@ -93,8 +93,12 @@ FinalClause == IF C.re = 0 \/ C.final = <<>> THEN "ok"
                ELSE LET s == [i \in 1..Len(St) |-> St[i].c]  As == Cols(A, s) IN
                     IF FMaxAbs(FMatMul(FTr(As), C.final)) > 6 * NR * (Mag(A) + Mag(C.final) + 2) THEN "exposed-residual-not-orthogonal-to-the-selected-items" ELSE "ok"
 \* route: a second recorded selection sequence that must coincide (duality, mixing = 1 => CUR) unless a tie was met
+\* a decision is tied when two unselected items are within the score tolerance of the maximum
+TiedAt(t) == LET r == Refresh(t)  U == (1..NI) \ RangeOf(Sel(t))  P == Pi(r)  mx == FSetMax({P[j] : j \in U}) IN
+             Cardinality({j \in U : P[j] >= mx - 2 * ScoreTol}) > 1
+FirstTie == LET T == {t \in 1..Len(St) : TiedAt(t)} IN IF T = {} THEN Len(St) + 1 ELSE SetMin(T)
 RouteClause == IF C.route = <<>> THEN "ok"
-               ELSE IF C.route # [i \in 1..Len(St) |-> St[i].c] THEN "route-selects-differently" ELSE "ok"
+               ELSE IF \E t \in 1..Len(St) : t < FirstTie /\ (t > Len(C.route) \/ C.route[t] # St[t].c) THEN "route-selects-differently" ELSE "ok"
 All == [t \in 1..Len(St) |-> StepClause(t)]
 Hard == {t \in 1..Len(St) : All[t] \notin {"ok", "inconclusive", "badwitness"}}
 Verdict == IF C.raised THEN <<"rejected", "valid-fit-raised">>
